@@ -352,6 +352,9 @@ impl LineProgram {
     pub fn set_address(&mut self, address: Address) {
         self.in_sequence = true;
         self.instructions.push(LineInstruction::SetAddress(address));
+        // Address offsets of following rows are relative to this address.
+        self.prev_row.address_offset = 0;
+        self.prev_row.op_index = 0;
     }
 
     /// End the sequence, and reset the row to its default values.
@@ -1365,10 +1368,7 @@ mod convert {
                 match instruction {
                     read::LineInstruction::SetAddress(val) => {
                         // Use address 0 so that all addresses are offsets.
-                        self.from_row.execute(
-                            read::LineInstruction::SetAddress(0),
-                            &mut self.from_program,
-                        )?;
+                        self.from_row.reset_address();
                         // Handle tombstones the same way that `from_row.execute` would have.
                         let tombstone_address =
                             !0 >> (64 - self.from_program.header().encoding().address_size * 8);
